@@ -278,6 +278,21 @@ def checkMbc (cv : Conv) (exact : Bool) (pts : List Pt) (m : Mbc) (scale : Int) 
     let okr := nearSq (Q.mul r r) r2 scale
     (if okc then [] else ["mbc-centre"]) ++ (if okr then [] else ["mbc-radius"])
 
+/-- the hull ring has a corner whose turning angle has a sine below 1e-12 (nearly collinear consecutive vertices) -/
+def nearCollinearCorner (r : List Pt) : Bool :=
+  (cornerTurns r).any fun t =>
+    let d := det t.1 t.2.1 t.2.2
+    decide (d * d * 1000000000000 * 1000000000000 ≤ sqDist t.1 t.2.1 * sqDist t.2.1 t.2.2)
+
+def hullClass (pts : List Pt) (hull : Option HullOut) (scale : Int) : String :=
+  match hull with
+  | some (.ring r) =>
+    let thin := match minWidth2 pts r with
+      | some w => w.le ⟨scale * scale, 1000000 * 1000000⟩
+      | none => true
+    if thin then "(thin-hull)" else if nearCollinearCorner r then "(near-collinear-hull-vertices)" else ""
+  | _ => ""
+
 def checkMinWidth (cv : Conv) (pts : List Pt) (hull : Option HullOut) (out : G) (scale : Int) : List String :=
   let len2 : Option Int := match out with
     | .lineString s => match s.pts with
@@ -291,7 +306,7 @@ def checkMinWidth (cv : Conv) (pts : List Pt) (hull : Option HullOut) (out : G) 
     let exact : Q := match hull with
       | some (.ring r) => (minWidth2 pts r).getD ⟨0, 1⟩
       | _ => ⟨0, 1⟩
-    if nearSq (Q.ofInt l2) exact scale then [] else ["minwidth-value"]
+    if nearSq (Q.ofInt l2) exact scale then [] else ["minwidth-value" ++ hullClass pts hull scale]
 
 def checkMinRect (cv : Conv) (pts : List Pt) (hull : Option HullOut) (out : G) (scale : Int) : List String :=
   let outPts := cv.pts (coordsOf out)
@@ -315,11 +330,8 @@ def checkMinRect (cv : Conv) (pts : List Pt) (hull : Option HullOut) (out : G) (
         pts.all fun p =>
           let d := sgn * det e.1 e.2 p
           decide (d ≥ 0) || Q.le ⟨d * d, 1⟩ (Q.mul tol2 (Q.ofInt l2))
-      -- a hull thinner than 1e-6 of the coordinate magnitude is reported as its own class
-      let thin := match minWidth2 pts r with
-        | some w => w.le ⟨scale * scale, 1000000 * 1000000⟩
-        | none => true
-      let sfx := if thin then "(thin-hull)" else ""
+      -- thin hulls and hulls with nearly collinear consecutive vertices are reported as their own classes
+      let sfx := hullClass pts hull scale
       (if okA then [] else ["minrect-area" ++ sfx]) ++ (if okC then [] else ["minrect-contains" ++ sfx])
     | _ => ["minrect-shape"]
   | _ =>
@@ -372,7 +384,9 @@ def constructLine (line : String) : String :=
       let hull : Option HullOut := match geomSec ss "H" with | some (some o) => hullOut cv o | _ => none
       let bad : List String :=
         (match geomSec ss "H" with
-         | some (some _) => (match hull with | some h => if hullCheck pts h then [] else ["hull"] | none => ["hull-shape"])
+         | some (some _) => (match hull with
+            | some h => if (if sec ss "K" == some ["grid"] then hullCheck pts h else hullCheckWeak pts h) then [] else ["hull"]
+            | none => ["hull-shape"])
          | some none => ["hull-error"] | none => []) ++
         (match geomSec ss "E" with
          | some (some o) => if envCheck pts (cv.pts (coordsOf o)) then [] else ["envelope"]
